@@ -71,6 +71,19 @@ def instances(tier, seed):
             g = grids[n % 5]
             add(fam.with_horizon(s, h), Cfg(method, N=[2, 3][n % 2], M=[2, 1][n % 2], intg='rk', grid=g))
             n += 1
+    # a square MATRIX-valued state with a non-symmetric right-hand side (element (i,j) of the state follows element (i,j) of the right-hand side)
+    from ..dsl import Spec as Spec_
+    sm = Spec_(nx=5, nu=1, xshape=[(2, 2), (1, 1)], ode=[X(1) * 2 + t, X(0) - U(0), nl1(X(3)) + X(4), X(2) * X(0), X(1) - X(2)], note='2x2 matrix state, non-symmetric right-hand side')
+    for method, intg in (('MS', 'rk'), ('SS', 'expl_euler')):
+        add(fam.with_horizon(sm, H[1]), Cfg(method, N=2, M=2, intg=intg, grid=fam.G_UNI))
+    # update rules given in another order than the states were declared (one call per state, reversed; one call on a concatenation)
+    for oi, order in enumerate(('reversed', 'concat-reversed')):
+        for method in ('MS', 'SS'):
+            s = copy.deepcopy(dcore[oi % len(dcore)])
+            if s.nx < 2:
+                s = copy.deepcopy([d_ for d_ in dcore if d_.nx >= 2][0])
+            s.nxt_order = order
+            add(fam.with_horizon(s, H[(oi + 1) % len(H)]), Cfg(method, N=2, M=[2, 1][oi], intg='rk', grid=fam.G_UNI))
     nrand = 12 if tier == 'quick' else 600
     for r in range(nrand):
         disc = rng.random() < 0.25
